@@ -130,6 +130,18 @@ Definition bindM {J A B} (m : M A) (k : A -> outcome J B) : outcome J B :=
 Definition catchM {J A B} (m : M A) (c : pyexn) (h : outcome J B) (k : A -> outcome J B) : outcome J B :=
   match m with Ok a => k a | Exn e => if pyexn_isa e c then h else RaiseF e end.
 
+Definition mapM {A B} (f : A -> B) (m : M A) : M B := match m with Ok a => Ok (f a) | Exn e => Exn e end.
+(* try: x = m  except C: <handler that either raises or re-assigns x and falls through>  ; rest(x)
+   -- the handler receives the continuation of the statement *)
+Definition catchM_or {J A B} (m : M A) (c : pyexn) (h : (A -> outcome J B) -> outcome J B) (k : A -> outcome J B)
+  : outcome J B :=
+  match m with Ok a => k a | Exn e => if pyexn_isa e c then h k else RaiseF e end.
+
+(* what `getattr(owner, name)` is applied to in the resolver: an imported module, or a class (for nested classes) *)
+Inductive owner (Mod C : Type) : Type := OMod (m : Mod) | OCls (c : C).
+Arguments OMod {Mod C} m.
+Arguments OCls {Mod C} c.
+
 (* ---- dict.get(key) : None when absent; `.get` on something that is not a dict -> AttributeError *)
 Fixpoint dict_get (d : list (str * jv)) (k : str) : option jv :=
   match d with
@@ -199,4 +211,44 @@ Proof.
   - injection H as <- <-. destruct (IH a' b' eq_refl) as [-> Hb]. auto.
   - destruct (Z.eqb c sep) eqn:Ec; [|discriminate]. injection H as <- <-.
     apply Z.eqb_eq in Ec. subst c. split; [reflexivity|]. now apply rsplit1_none.
+Qed.
+
+(* ---- s.split("."), ".".join(parts), `p in s` (substring) *)
+Fixpoint split_dots (s : str) : list str :=
+  match s with
+  | [] => [[]]
+  | c :: r => if Z.eqb c 46 then [] :: split_dots r
+              else match split_dots r with h :: t => (c :: h) :: t | [] => [[c]] end
+  end.
+Fixpoint join_dots (parts : list str) : str :=
+  match parts with
+  | [] => []
+  | [p] => p
+  | p :: r => p ++ 46 :: join_dots r
+  end.
+Fixpoint str_contains (s p : str) : bool :=
+  str_startswith s p || match s with [] => false | _ :: r => str_contains r p end.
+
+Lemma split_dots_nonempty s : split_dots s <> [].
+Proof. destruct s as [|c r]; simpl; [discriminate|]. destruct (Z.eqb c 46); [discriminate|]. destruct (split_dots r); discriminate. Qed.
+
+Lemma join_split_dots s : join_dots (split_dots s) = s.
+Proof.
+  induction s as [|c r IH]; [reflexivity|]. simpl.
+  destruct (Z.eqb c 46) eqn:E.
+  - apply Z.eqb_eq in E. subst c. pose proof (split_dots_nonempty r) as Hn.
+    destruct (split_dots r) as [|h t] eqn:Er; [contradiction|]. simpl in *. now rewrite IH.
+  - pose proof (split_dots_nonempty r) as Hn.
+    destruct (split_dots r) as [|h t] eqn:Er; [contradiction|].
+    destruct t as [|h2 t2]; simpl in *; now rewrite <- IH.
+Qed.
+
+Lemma join_dots_cons_app p r : r <> [] -> join_dots (p :: r) = p ++ 46 :: join_dots r.
+Proof. destruct r; [contradiction|reflexivity]. Qed.
+
+(* the first piece of a string that does not start with a dot starts with the same character *)
+Lemma split_dots_head c r : c <> 46 -> exists h t, split_dots (c :: r) = (c :: h) :: t.
+Proof.
+  intros Hc. simpl. apply Z.eqb_neq in Hc. rewrite Hc.
+  destruct (split_dots r) as [|h t]; eauto.
 Qed.
